@@ -133,6 +133,6 @@ extern int mpt_output_bind_string(MPT_INTERFACE(output) *out, const char *descr)
 		out->_vptr->push(out, 1, 0);
 		return -1;
 	}
-	return len;
+	return dim - 1;
 }
 
